@@ -2,7 +2,9 @@
 //
 // Binary level: every case is a small project tree plus a short SEQUENCE of spok invocations. Work runs the
 // REAL binary $VERIF_BUILD/spok inside a fresh sandbox directory used as HOME, with a full snapshot of the
-// sandbox (path, kind, mode, content hash) before and after every invocation, captured stdout / stderr / exit
+// sandbox (path, kind, mode, content hash) before and after every invocation (symbolic links are recorded as
+// links, kind l with the target string as content, and never followed by the walk: what a link points to is
+// in the snapshot under its own path, all generated targets stay inside HOME), captured stdout / stderr / exit
 // status and a side-effect log ($LOG, outside the sandbox) that every generated task command appends its own
 // marker to.  What the judges use as ground truth is that log (which commands really ran, in which order),
 // the scripted outputs / exit codes of those commands (known by construction) and the snapshots -- never
@@ -10,7 +12,8 @@
 //
 // Case grammar (one line, blank separated words; strings hex encoded, `-` = empty):
 //
-//	T <n> {<relpath> <f|d> <octal mode> <hex content>}      initial sandbox tree (paths relative to HOME)
+//	T <n> {<relpath> <f|d|l> <octal mode> <hex content>}    initial sandbox tree (paths relative to HOME); kind l = a
+//	                                                        symbolic link, its content is the (relative) target string
 //	P <dir|->                                               directory of THE spokfile the spec below describes
 //	W <parses 0|1> <loads 0|1> <dotenv n|g|b>               world facts the generator built in
 //	V <n> {<name> S <hex value> | <name> J <k> {<hex arg>}} variables (literal | join(args...))
@@ -72,7 +75,7 @@ type varSpec struct {
 
 type ent struct {
 	path    string
-	kind    string // f | d
+	kind    string // f | d | l (symbolic link: content = target string)
 	mode    uint32
 	content string
 }
@@ -308,6 +311,30 @@ func snapshot(root string) map[string]snapEnt {
 	return m
 }
 
+// entryCode: what a path is in the real sandbox: a absent, f regular file, d directory, and for a symbolic link
+// what os.Stat finds behind it: lf file, ld directory, lx nothing (dangling link, link loop)
+func entryCode(p string) string {
+	li, err := os.Lstat(p)
+	if err != nil {
+		return "a"
+	}
+	if li.Mode()&fs.ModeSymlink != 0 {
+		si, err := os.Stat(p)
+		switch {
+		case err != nil:
+			return "lx"
+		case si.IsDir():
+			return "ld"
+		default:
+			return "lf"
+		}
+	}
+	if li.IsDir() {
+		return "d"
+	}
+	return "f"
+}
+
 // diff returns sorted `path:kind` with kind ∈ new del mod app chm typ
 // (app = the old content is a proper prefix of the new content: an append)
 func diff(a, b map[string]snapEnt) []string {
@@ -410,6 +437,9 @@ func cliWork(line string) string {
 		if e.kind == "d" {
 			_ = os.MkdirAll(p, 0o755)
 			_ = os.Chmod(p, fs.FileMode(e.mode))
+		} else if e.kind == "l" {
+			_ = os.MkdirAll(filepath.Dir(p), 0o755)
+			_ = os.Symlink(e.content, p)
 		} else {
 			_ = os.MkdirAll(filepath.Dir(p), 0o755)
 			_ = os.WriteFile(p, []byte(e.content), fs.FileMode(e.mode))
@@ -444,8 +474,7 @@ func cliWork(line string) string {
 		}
 		_ = os.WriteFile(logPath, nil, 0o644)
 		before := snapshot(home)
-		_, has := before[strings.TrimPrefix(s.cwd+"/spokfile", "./")]
-		cwdsf = append(cwdsf, b01(has))
+		cwdsf = append(cwdsf, entryCode(filepath.Join(home, filepath.FromSlash(s.cwd), "spokfile")))
 
 		var argv []string
 		hasJSON := false
@@ -855,6 +884,22 @@ type treeOpts struct {
 	spokDir      bool // a DIRECTORY named spokfile in proj/sub
 	gitignore    int  // 0 none, 1 in proj, 2 in proj/sub too
 	dotenv       string
+	// symbolic links (all targets relative and inside HOME; `shared` is a directory next to `proj`)
+	spokLink string // proj/spokfile is a link: file (-> ../shared/spokfile holding the text) | chain (-> ../shared/link -> spokfile)
+	//                 | dangling (-> ../shared/missing) | nodir (-> ../nowhere/spokfile) | dir (-> ../shared) | loop (-> spokfile)
+	gitLink string // proj/.gitignore is a link: file (-> ../shared/gitignore) | dangling (-> ../shared/gi-missing) | dir (-> src) | nodir
+	envLink string // proj/.env: lg | lb (link -> ../shared/env, good / bad text) | dangling | ldir (link -> src) | dir (a directory)
+	subLink string // proj/sub/spokfile is a link: up (-> ../spokfile) | dangling (-> nothing-here) | dir (-> deep)
+	subGit  string // proj/sub/.gitignore is a link: up (-> ../.gitignore) | file (-> ../../shared/gitignore)
+}
+
+// designates reports whether proj/spokfile (regular or through links) holds the generated text
+func (o treeOpts) designates() bool {
+	return (o.withSpokfile && o.spokLink == "") || o.spokLink == "file" || o.spokLink == "chain"
+}
+
+func (o treeOpts) anyLink() bool {
+	return o.spokLink != "" || o.gitLink != "" || o.subLink != "" || o.subGit != "" || (o.envLink != "" && o.envLink != "dir")
 }
 
 func (g *gen) tree(text string, tasks []taskSpec, o treeOpts) []ent {
@@ -876,16 +921,70 @@ func (g *gen) tree(text string, tasks []taskSpec, o treeOpts) []ent {
 	for i := range tasks {
 		t = append(t, ent{fmt.Sprintf("proj/in%d.txt", i), "f", 0o644, fmt.Sprintf("input %d\n", i)})
 	}
-	if o.withSpokfile {
-		t = append(t, ent{"proj/spokfile", "f", 0o644, text})
+	if o.anyLink() || o.envLink != "" {
+		t = append(t, ent{"shared", "d", 0o755, ""}, ent{"shared/readme.txt", "f", 0o644, "kept for several projects\n"})
+	}
+	switch o.spokLink {
+	case "":
+		if o.withSpokfile {
+			t = append(t, ent{"proj/spokfile", "f", 0o644, text})
+		}
+	case "file":
+		t = append(t, ent{"shared/spokfile", "f", 0o644, text}, ent{"proj/spokfile", "l", 0o777, "../shared/spokfile"})
+	case "chain":
+		t = append(t, ent{"shared/spokfile", "f", 0o644, text}, ent{"shared/link", "l", 0o777, "spokfile"}, ent{"proj/spokfile", "l", 0o777, "../shared/link"})
+	case "dangling":
+		t = append(t, ent{"proj/spokfile", "l", 0o777, "../shared/missing"})
+	case "nodir":
+		t = append(t, ent{"proj/spokfile", "l", 0o777, "../nowhere/spokfile"})
+	case "dir":
+		t = append(t, ent{"proj/spokfile", "l", 0o777, "../shared"})
+	case "loop":
+		t = append(t, ent{"proj/spokfile", "l", 0o777, "spokfile"})
+	}
+	switch o.gitLink {
+	case "file":
+		t = append(t, ent{"shared/gitignore", "f", 0o644, "node_modules/\n*.o"}, ent{"proj/.gitignore", "l", 0o777, "../shared/gitignore"})
+	case "dangling":
+		t = append(t, ent{"proj/.gitignore", "l", 0o777, "../shared/gi-missing"})
+	case "nodir":
+		t = append(t, ent{"proj/.gitignore", "l", 0o777, "../nowhere/gitignore"})
+	case "dir":
+		t = append(t, ent{"proj/.gitignore", "l", 0o777, "src"})
+	}
+	switch o.envLink {
+	case "lg":
+		t = append(t, ent{"shared/env", "f", 0o644, "ENVX=1\nENVY=two\n"}, ent{"proj/.env", "l", 0o777, "../shared/env"})
+	case "lb":
+		t = append(t, ent{"shared/env", "f", 0o644, "=x\n\"unterminated\n"}, ent{"proj/.env", "l", 0o777, "../shared/env"})
+	case "dangling":
+		t = append(t, ent{"proj/.env", "l", 0o777, "../shared/no-env"})
+	case "ldir":
+		t = append(t, ent{"proj/.env", "l", 0o777, "src"})
+	case "dir":
+		t = append(t, ent{"proj/.env", "d", 0o755, ""}, ent{"proj/.env/x", "f", 0o644, "A=1\n"})
+	}
+	switch o.subLink {
+	case "up":
+		t = append(t, ent{"proj/sub/spokfile", "l", 0o777, "../spokfile"})
+	case "dangling":
+		t = append(t, ent{"proj/sub/spokfile", "l", 0o777, "nothing-here"})
+	case "dir":
+		t = append(t, ent{"proj/sub/spokfile", "l", 0o777, "deep"})
+	}
+	switch o.subGit {
+	case "up":
+		t = append(t, ent{"proj/sub/.gitignore", "l", 0o777, "../.gitignore"})
+	case "file":
+		t = append(t, ent{"shared/gitignore2", "f", 0o600, ""}, ent{"proj/sub/.gitignore", "l", 0o777, "../../shared/gitignore2"})
 	}
 	if o.spokDir {
 		t = append(t, ent{"proj/sub/spokfile", "d", 0o755, ""}, ent{"proj/sub/spokfile/x.txt", "f", 0o644, "x\n"})
 	}
-	if o.gitignore >= 1 {
+	if o.gitignore >= 1 && o.gitLink == "" {
 		t = append(t, ent{"proj/.gitignore", "f", 0o644, "*.o\n"})
 	}
-	if o.gitignore >= 2 {
+	if o.gitignore >= 2 && o.subGit == "" {
 		t = append(t, ent{"proj/sub/.gitignore", "f", 0o644, "tmp/"}) // no trailing newline
 		t = append(t, ent{"other/.gitignore", "f", 0o600, ""})
 	}
@@ -896,6 +995,14 @@ func (g *gen) tree(text string, tasks []taskSpec, o treeOpts) []ent {
 		t = append(t, ent{"proj/.env", "f", 0o644, "=x\n\"unterminated\n"})
 	}
 	return t
+}
+
+// maybeLinked: a project with its spokfile; one time in six the spokfile is reached through a symbolic link
+func (g *gen) maybeLinked() treeOpts {
+	if g.chance(1, 6) {
+		return treeOpts{spokLink: g.pick("file", "chain")}
+	}
+	return treeOpts{withSpokfile: true}
 }
 
 var cwds = []string{"proj", "proj", "proj/sub", "proj/sub/deep"}
@@ -925,7 +1032,13 @@ func (g *gen) newCase(so specOpts, world int, to treeOpts) *caseT {
 	if to.dotenv != "" {
 		c.dotenv = to.dotenv
 	}
-	if !to.withSpokfile {
+	switch to.envLink { // W dotenv says what the FILE that proj/.env designates holds
+	case "lg":
+		c.dotenv = "g"
+	case "lb":
+		c.dotenv = "b"
+	}
+	if !to.designates() {
 		c.proj = ""
 	}
 	c.tree = g.tree(text, tasks, to)
@@ -945,7 +1058,7 @@ var runFlagSets = [][]string{nil, {"quiet"}, {"json"}, {"force"}, {"force", "jso
 func genC09(w *bufio.Writer, g *gen, n int) {
 	for i := 0; i < n; i++ {
 		fail := []int{15, 30, 30, 60, 100}[g.rng.Intn(5)]
-		c := g.newCase(specOpts{maxTasks: 4, minCmds: 1, maxCmds: 4, failPct: fail, wantDefault: 1, maxVars: 2}, wValid, treeOpts{withSpokfile: true})
+		c := g.newCase(specOpts{maxTasks: 4, minCmds: 1, maxCmds: 4, failPct: fail, wantDefault: 1, maxVars: 2}, wValid, g.maybeLinked())
 		cwd := cwds[g.rng.Intn(len(cwds))]
 		args := g.argsFor(c.tasks)
 		if len(args) == 1 && args[0] == "nosuch" && g.chance(2, 3) {
@@ -1042,6 +1155,21 @@ func genC19Random(w *bufio.Writer, g *gen, n int) {
 		if g.chance(1, 8) {
 			to.dotenv = g.pick("g", "g", "b")
 		}
+		if g.chance(1, 4) {
+			// symbolic links: the spokfile, .gitignore, .env
+			if g.chance(2, 3) {
+				to.spokLink = g.pick("file", "file", "chain", "dangling", "dir")
+			}
+			if g.chance(1, 2) {
+				to.gitLink = g.pick("file", "file", "dangling", "dir")
+			}
+			if to.dotenv == "" && g.chance(1, 3) {
+				to.envLink = g.pick("lg", "lb", "dangling", "ldir")
+			}
+			if !to.spokDir && g.chance(1, 4) {
+				to.subGit = g.pick("up", "file")
+			}
+		}
 		so := specOpts{maxTasks: 4, minCmds: 0, maxCmds: 3, failPct: 10, wantDefault: 1, wantClean: true, maxVars: 3}
 		c := g.newCase(so, world, to)
 		ns := 1 + g.rng.Intn(3)
@@ -1079,6 +1207,116 @@ func genC19Random(w *bufio.Writer, g *gen, n int) {
 	}
 }
 
+// the symbolic-link part of C19 (small-scope exhaustive over the link shapes, `rounds` random spokfiles each):
+//
+//	A  --init (± other flags), twice, where <cwd>/spokfile and / or <cwd>/.gitignore are symbolic links
+//	B  every action through a linked spokfile (link to a file, chain of two links, dangling, to a directory, loop),
+//	   valid and invalid texts, from proj and from nested directories, each twice
+//	C  a link proj/sub/spokfile (up to ../spokfile, dangling, to a directory) x what proj/spokfile is
+//	D  proj/.env as a link (good / bad text, dangling, to a directory) or a directory
+func genC19Links(w *bufio.Writer, g *gen, rounds int) {
+	so := specOpts{maxTasks: 3, minCmds: 1, maxCmds: 2, failPct: 10, wantDefault: 1, maxVars: 2}
+	linkWorlds := []int{wValid, wValid, wSyntax, wDup, wBuiltin}
+	for r := 0; r < rounds; r++ {
+		// A
+		initFlags := [][]string{{"init"}, {"init", "fmt"}, {"init", "force"}, {"init", "quiet", "debug"}, {"init", "json", "show"}}
+		for _, sl := range []string{"", "file", "chain", "dangling", "nodir", "dir", "loop"} {
+			for _, gl := range []string{"none", "regular", "file", "dangling", "nodir", "dir"} {
+				if sl == "" && (gl == "none" || gl == "regular") {
+					continue // no link at all: the other generators
+				}
+				for _, fl := range initFlags {
+					to := treeOpts{spokLink: sl}
+					switch gl {
+					case "none":
+					case "regular":
+						to.gitignore = 1
+					default:
+						to.gitLink = gl
+					}
+					world := wValid
+					if sl == "file" || sl == "chain" {
+						world = linkWorlds[g.rng.Intn(len(linkWorlds))]
+					}
+					c := g.newCase(so, world, to)
+					if (sl == "file" || sl == "chain") && g.chance(1, 2) {
+						// first an ordinary use of the linked spokfile
+						c.steps = append(c.steps, step{cwd: g.pick("proj", "proj/sub"), flags: [][]string{{"show"}, {"fmt"}, {"vars"}, nil}[g.rng.Intn(4)]})
+					}
+					c.steps = append(c.steps, step{cwd: "proj", flags: fl}, step{cwd: "proj", flags: []string{"init"}})
+					fmt.Fprintln(w, c.encode())
+				}
+			}
+		}
+		// B
+		actFlags := [][]string{nil, {"fmt"}, {"fmt", "quiet"}, {"show"}, {"vars"}, {"json"}, {"force"}, {"clean"}, {"fmt", "show"}, {"quiet"}, {"debug"}}
+		for _, sl := range []string{"file", "chain", "dangling", "dir", "loop"} {
+			worlds := []int{wValid}
+			if sl == "file" || sl == "chain" {
+				worlds = []int{wValid, wSyntax, wDup, wBuiltin}
+			}
+			for _, world := range worlds {
+				for _, fl := range actFlags {
+					for _, cwd := range []string{"proj", "proj/sub", "proj/sub/deep"} {
+						to := treeOpts{spokLink: sl, gitignore: g.rng.Intn(3)}
+						if g.chance(1, 3) {
+							to.gitLink = g.pick("file", "dangling")
+						}
+						if g.chance(1, 5) {
+							to.envLink = g.pick("lg", "lg", "dangling")
+						}
+						c := g.newCase(so, world, to)
+						s := step{cwd: cwd, flags: fl}
+						if g.chance(1, 2) {
+							s.args = g.argsFor(c.tasks)
+						}
+						c.steps = []step{s, s}
+						if len(fl) > 0 && fl[0] == "fmt" {
+							c.steps = append(c.steps, step{cwd: "proj", flags: []string{g.pick("show", "vars", "fmt")}})
+						}
+						fmt.Fprintln(w, c.encode())
+					}
+				}
+			}
+		}
+		// C (no task runs here: the cache directory would be proj/sub/.spok and the inputs are relative to proj)
+		for _, sub := range []string{"up", "dangling", "dir"} {
+			for _, top := range []string{"regular", "file", "none"} {
+				for _, fl := range [][]string{{"init"}, {"fmt"}, {"show"}, {"vars"}, {"init", "fmt"}, {"fmt", "quiet"}} {
+					for _, cwd := range []string{"proj/sub", "proj/sub/deep"} {
+						to := treeOpts{withSpokfile: top == "regular", subLink: sub, gitignore: g.rng.Intn(3), subGit: g.pick("", "", "up", "file")}
+						if top == "file" {
+							to.spokLink = "file"
+						}
+						world := linkWorlds[g.rng.Intn(len(linkWorlds))]
+						c := g.newCase(so, world, to)
+						s := step{cwd: cwd, flags: fl}
+						c.steps = []step{s, s}
+						fmt.Fprintln(w, c.encode())
+					}
+				}
+			}
+		}
+		// D
+		for _, el := range []string{"lg", "lb", "dangling", "ldir", "dir"} {
+			for _, sl := range []string{"", "file"} {
+				for _, fl := range [][]string{{"fmt"}, {"show"}, nil, {"init"}, {"vars"}, {"json"}} {
+					for _, cwd := range []string{"proj", "proj/sub"} {
+						to := treeOpts{withSpokfile: sl == "", spokLink: sl, envLink: el, gitignore: g.rng.Intn(2)}
+						c := g.newCase(so, linkWorlds[g.rng.Intn(len(linkWorlds))], to)
+						s := step{cwd: cwd, flags: fl}
+						if len(fl) == 0 || fl[0] == "json" {
+							s.args = g.argsFor(c.tasks)
+						}
+						c.steps = []step{s, s}
+						fmt.Fprintln(w, c.encode())
+					}
+				}
+			}
+		}
+	}
+}
+
 var c20FlagSets = [][]string{nil, {"json"}, {"json"}, {"json"}, {"json"}, {"json"}, {"quiet"}, {"quiet"}, {"show"}, {"vars"}, {"force", "json"}, {"debug"}, {"quiet", "json"},
 	{"show", "quiet"}, {"vars", "quiet"}, {"show", "json"}, {"j"}, {"q"}, {"s"}, {"force"}, {"debug", "json"}}
 
@@ -1088,7 +1326,7 @@ func genC20(w *bufio.Writer, g *gen, n int) {
 		fail := []int{0, 0, 0, 0, 10, 40}[g.rng.Intn(6)]
 		world := pickWorld(g, 8)
 		so := specOpts{maxTasks: 5, minCmds: 0, maxCmds: 4, failPct: fail, wantDefault: 1, maxVars: 5}
-		c := g.newCase(so, world, treeOpts{withSpokfile: true})
+		c := g.newCase(so, world, g.maybeLinked())
 		ns := 1 + g.rng.Intn(3)
 		var args []string
 		for k := 0; k < ns; k++ {
@@ -1129,10 +1367,12 @@ func cliGen(w *bufio.Writer, a map[string]string) {
 	case "C19":
 		if thorough {
 			genC19Exhaustive(w, g, []int{wValid, wValid, wSyntax, wDup, wBuiltin, wExec})
-			genC19Random(w, g, 1200)
+			genC19Links(w, g, 6)
+			genC19Random(w, g, 1500)
 		} else {
 			genC19Exhaustive(w, g, []int{wValid, wSyntax, wDup})
-			genC19Random(w, g, 250)
+			genC19Links(w, g, 1)
+			genC19Random(w, g, 300)
 		}
 	default: // C20
 		if thorough {
